@@ -1,5 +1,6 @@
 import Model.Util
 import Gen.UncertF
+import Model.UncLoop
 namespace Gep.Driver.C18
 open Gep Gep.F
 
@@ -34,6 +35,33 @@ def handle (op : String) (args : List String) : String :=
       let r := predictUnc f θ hs C
       hexOfFloat r.1 ++ " " ++ hexOfFloat r.2
     | _, _ => "bad-op"
+  | "c18.loop", q :: tgt :: rest =>
+    -- `c18.loop <q|-> <target|-> N <names> V <values> P <free parameters> H <error or N per free parameter>`
+    -- the observable raises when parameter q has the value `target` (one of its two shifted values), else returns;
+    -- prints: the values of every dictionary the observable saw, `=` the final dictionary, ok / exc:<name>
+    match splitTok "H" rest with
+    | [r1, hsT] =>
+      match splitTok "P" r1 with
+      | [r2, pars] =>
+        match splitTok "V" r2 with
+        | ["N" :: names, valsT] =>
+          match floats? valsT with
+          | some vals =>
+            let hs : List (Option Float) := hsT.map fun t => if t == "N" then none else floatOfHex? t
+            let herr : String → Option Float := fun p => ((pars.zip hs).find? (·.1 == p)).bind (·.2)
+            let target := floatOfHex? tgt
+            let ev : List (String × Float) → Gep.Pred.Res Float := fun d =>
+              match Gep.Fit.dget d q, target with
+              | some x, some t => if x == t then .exc "boom" else .val 0
+              | _, _ => .val 0
+            let r := Gep.Unc.loop ev (fun m h => m + h / 2) (fun m h => m - h / 2) herr (names.zip vals) pars
+            let showD (d : List (String × Float)) := " ".intercalate (d.map fun kv => hexOfFloat kv.2)
+            " | ".intercalate (r.trace.map showD) ++ " = " ++ showD r.params ++
+              (match r.out with | .val _ => " ok" | .exc e => " exc:" ++ e)
+          | none => "bad-op"
+        | _ => "bad-op"
+      | _ => "bad-op"
+    | _ => "bad-op"
   | _, _ => "bad-op"
 
 end Gep.Driver.C18
